@@ -492,7 +492,10 @@ func spoil(r *lib.Rng, u utxoIn, right string) utxoIn {
 	case 0:
 		u.Chain = "missing"
 	case 1:
+		// its own transaction: a sibling outpoint with a higher index would make the fake chain
+		// re-create this output (as a filler) and the case would contradict its own description
 		u.Chain = "nooutput"
+		u.Hash = hashHex(r)
 	case 2:
 		u.Chain = "other"
 	case 3:
